@@ -23,6 +23,7 @@ import Driver.Hull
 import Driver.Sync
 import Driver.Measure
 import Driver.CrossOps
+import Driver.PolyGeom
 /-! `mvdriver`: reads one request per line on stdin, prints one answer per line.
 First token = engine. -/
 
@@ -53,6 +54,7 @@ def dispatch (line : String) : String :=
   | "sync" :: rest => SyncDrv.handle rest
   | "measure" :: rest => MeasureDrv.handle rest
   | "crossops" :: rest => CrossOpsDrv.handle rest
+  | "polygeom" :: rest => PolyGeomDrv.handle rest
   | _ => "bad-engine"
 
 partial def loop (h : IO.FS.Stream) (out : IO.FS.Stream) : IO Unit := do
